@@ -503,6 +503,19 @@ func c14graphProgram(g c14graph) string {
 			fmt.Fprintf(&b, "n%d := map[string]any{\"k\": nil}\n", i)
 		}
 	}
+	// every node is printed before the first assignment and again after each one (a printer must not carry state from
+	// one rendering to the next); slices are written through an alias (a sub-slice header over the same array)
+	printAll := func() {
+		for i := 0; i < len(g.Kinds); i++ {
+			fmt.Fprintf(&b, "fmt.Println(len(fmt.Sprint(n%d)) > 0)\nprintln(n%d)\n", i, i)
+		}
+	}
+	for i := 0; i < len(g.Kinds); i++ {
+		if g.Kinds[i] == 'A' {
+			fmt.Fprintf(&b, "alias%d := n%d[0:2]\n", i, i)
+		}
+	}
+	printAll()
 	s := 0
 	for i := 0; i < len(g.Kinds); i++ {
 		for j := 0; j < c14slotsOf(g.Kinds[i]); j++ {
@@ -515,14 +528,17 @@ func c14graphProgram(g c14graph) string {
 			case 'S':
 				fmt.Fprintf(&b, "n%d.%s = n%d\n", i, []string{"L", "R"}[j], t)
 			case 'A':
-				fmt.Fprintf(&b, "n%d[%d] = n%d\n", i, j, t)
+				fmt.Fprintf(&b, "alias%d[%d] = n%d\n", i, j, t)
 			case 'M':
 				fmt.Fprintf(&b, "n%d[\"k\"] = n%d\n", i, t)
 			}
+			printAll()
 		}
 	}
 	for i := 0; i < len(g.Kinds); i++ {
-		fmt.Fprintf(&b, "fmt.Println(len(fmt.Sprint(n%d)) > 0)\nprintln(n%d)\n", i, i)
+		if g.Kinds[i] == 'A' {
+			fmt.Fprintf(&b, "_ = alias%d\n", i)
+		}
 	}
 	return b.String()
 }
@@ -588,8 +604,16 @@ func C14Child(thorough bool) {
 		st := "ok"
 		if res.Failed() {
 			st = "failed:" + strings.ReplaceAll(firstLine(res.String()+fmt.Sprint(res.Err)), " ", "_")
-		} else if strings.Count(res.Out, "true\n") != len(gs[idx].Kinds) {
-			st = "badoutput"
+		} else {
+			rounds := 1
+			for _, t := range gs[idx].Slots {
+				if t >= 0 {
+					rounds++
+				}
+			}
+			if strings.Count(res.Out, "true\n") != rounds*len(gs[idx].Kinds) {
+				st = "badoutput"
+			}
 		}
 		fmt.Fprintf(w, "%d %s\n", idx, st)
 		w.Flush()
